@@ -89,6 +89,11 @@ Inductive op :=
 | AddEltorito (bootfile : path) (catalog : path) (catalog_rr : Z) (catalog_jol : option path) (catalog_udf : option path)
 | AddEltoritoSection (bootfile : path)           (* add_eltorito when a catalog already exists *)
 | RmEltorito
+| Reopen (empties : list Z) (base : Z)
+    (* write the image and open it again.  On disc a zero-length file has no data extent, so which
+       names were links to one empty content cannot be recovered: after reopening, every name bound
+       to an empty blob (listed in [empties], or already renumbered) is its own content.  [base]
+       (<= -1000, distinct per generation) seeds the fresh blob identifiers. *)
 | Bad.                                           (* an edit that must be refused; changes nothing *)
 
 Inductive outcome := Ok | Refused.
@@ -116,9 +121,47 @@ Definition set_hidden_in (l : list entry) (p : path) (h : bool) : list entry :=
   map (fun e => if path_eqb (e_path e) p
                 then {| e_path := e_path e; e_kind := e_kind e; e_hidden := h; e_rr := e_rr e |} else e) l.
 
+Definition is_empty_blob (empties : list Z) (b : Z) : bool := (b <=? -1000) || existsb (Z.eqb b) empties.
+
+Fixpoint renum (empties : list Z) (base k : Z) (l : list entry) : list entry :=
+  match l with
+  | [] => []
+  | e :: r =>
+    (match e_kind e with
+     | KFile b => if is_empty_blob empties b
+                  then {| e_path := e_path e; e_kind := KFile (base - k); e_hidden := e_hidden e; e_rr := e_rr e |}
+                  else e
+     | _ => e
+     end) :: renum empties base (k + 1) r
+  end.
+
+(* In UDF two names of one empty content still share a File Entry on disc, so they stay linked to
+   each other (but not to names in the other namespaces): the fresh identifier is derived from the
+   position of the first UDF entry bound to the same blob. *)
+Fixpoint first_idx (b : Z) (l : list entry) (k : Z) : Z :=
+  match l with
+  | [] => k
+  | e :: r => match e_kind e with
+              | KFile b' => if b' =? b then k else first_idx b r (k + 1)
+              | _ => first_idx b r (k + 1)
+              end
+  end.
+
+Definition renum_shared (empties : list Z) (base : Z) (l : list entry) : list entry :=
+  map (fun e => match e_kind e with
+                | KFile b => if is_empty_blob empties b
+                             then {| e_path := e_path e; e_kind := KFile (base - first_idx b l 0);
+                                     e_hidden := e_hidden e; e_rr := e_rr e |}
+                             else e
+                | _ => e
+                end) l.
+
 Definition step (s : fs) (o : op) : fs * outcome :=
   match o with
   | Bad => (s, Refused)
+  | Reopen empties base =>
+    ({| f_iso := renum empties base 0 (f_iso s); f_jol := renum empties (base - 300000) 0 (f_jol s);
+        f_udf := renum_shared empties (base - 600000) (f_udf s); f_boot := f_boot s |}, Ok)
   | AddFp blob iso jol udf =>
     if (match iso, jol, udf with None, None, None => false | _, _, _ => true end) &&
        opt_ok (fun x => can_add (f_iso s) (fst x)) iso && opt_ok (can_add (f_jol s)) jol &&
